@@ -149,6 +149,18 @@ Definition entry_ok (o : op) (x : out) (e : loc * fval) : bool :=
     | OFval v => if loc_eqb (fst e) (LS s k) then fval_eqb (snd e) v else true
     | _ => negb (loc_eqb (fst e) (LS s k))
     end
+  | LoadOutAll s =>                            (* a stored output that is not None is in the list *)
+    match x, fst e with
+    | OFvals l, LF j k =>
+      if (fst j =? s) && (k =? K_OUT) && negb (f_is_none (snd e)) then existsb (fval_eqb (snd e)) l else true
+    | _, _ => true
+    end
+  | LoadMetaAll s k =>                         (* a stored metadata entry that is not None is in the list *)
+    match x, e with
+    | OVals l, (LM j k', FV v) =>
+      if (fst j =? s) && (k' =? k) && negb (is_none v) then existsb (val_eqb v) l else true
+    | _, _ => true
+    end
   | _ => true
   end.
 
